@@ -889,6 +889,15 @@ func (b *backend) pathCelIssueSignCert(ctx context.Context, req *logical.Request
 		return nil, err
 	}
 
+	// The CEL program does not see the issuer's certificate: verify here that
+	// the certificate won't be valid past the lifetime of the CA certificate,
+	// and act according to the issuer's LeafNotAfterBehavior argument, as for
+	// certificates issued through a (non-CEL) role.
+	cert.NotAfter, err = applyLeafNotAfterBehavior(signingBundle, cert.NotAfter)
+	if err != nil {
+		return logical.ErrorResponse(err.Error()), nil
+	}
+
 	// Ensure both TTL and notAfter are not provided together
 	rawTTL := data.Get("ttl")
 	rawNotAfter := data.Get("not_after")
